@@ -177,7 +177,19 @@ partial def runCrash (dir : String) (lines : Array String) (log : Array String) 
                     | some t => t
                     | none => if hs < durTok.size then durTok[hs]! else some 0
                   let spc := m.cs / 512
-                  for s in [0:nsec] do
+                  -- sectors worth checking: everything with a non-default allowed set, plus every
+                  -- sector of a cluster that is mapped in this crash image
+                  let mut cand : Array Nat := allowed.fold (fun acc k _ => acc.push k) #[]
+                  for li in [0:m.h.l1Size] do
+                    let l1e := m.l1Entry li
+                    if l1e ≠ 0 then
+                      for lj in [0:m.l2Entries] do
+                        let g := li * m.l2Entries + lj
+                        if g * spc < nsec ∧ m.l2Entry g ≠ 0 then
+                          for q in [0:spc] do
+                            if ¬ allowed.contains (g * spc + q) then cand := cand.push (g * spc + q)
+                  for s in cand do
+                    if s ≥ nsec then continue
                     let e := m.l2Entry (s / spc)
                     let got : Option Nat :=
                       if e / 2^62 % 2 = 1 then none
@@ -224,8 +236,8 @@ partial def runCrash (dir : String) (lines : Array String) (log : Array String) 
         | ["fsync"] =>
           if prevFlushOk then
             -- sync point: everything completed so far is durable
-            let total := flat.vsize / 512
-            synced := some ((List.range total).foldl (fun a s => a.insert s [flat.sec.get s]) {})
+            -- only sectors that hold data need an entry: the default allowed set is [0]
+            synced := some (flat.sec.m.fold (fun a s v => if v ≠ 0 then a.insert s [v] else a) {})
           prevFlushOk := false
         | ["read", _, _] => pure ()
         | _ => prevFlushOk := false
